@@ -71,10 +71,7 @@ Definition resolve (w : world) (i : ingress) (r : prule) : option string :=
   match find_svc w (i_ns i ++ "/" ++ r_svc r) with
   | None => None
   | Some svc =>
-      let port := if String.eqb (r_port r) ""
-                  then match s_ports svc with p :: _ => sp_target p | [] => "" end
-                  else r_port r in
-      match find_port svc port (parse_int port) with
+      match pick_port svc (r_port r) with
       | None => None
       | Some p => Some (backend_id (s_ns svc) (s_name svc) (sp_target p))
       end
@@ -86,7 +83,7 @@ Lemma add_backend_spec w i hn r x :
 Proof.
   destruct x as [s T]. unfold add_backend, resolve.
   destruct (find_svc w (i_ns i ++ "/" ++ r_svc r)) as [svc|]; [|split; reflexivity].
-  destruct (find_port svc _ _) as [p|]; [|split; reflexivity].
+  destruct (pick_port svc _) as [p|]; [|split; reflexivity].
   split; [reflexivity|]. intros h. cbn [fst].
   destruct (get_back s _); cbn [fst]; [reflexivity|]. apply upd_back_host.
 Qed.
